@@ -19,6 +19,10 @@ from rsatoolbox.data.ops import merge_datasets
 from rsatoolbox.data.computations import average_dataset_by
 
 ABSENT_STR, ABSENT_NUM = '~absent~', 987654
+# value-returning operations that may be asked to keep their source in the workspace
+KEEPABLE = ('copy', 'split_obs', 'split_channel', 'split_time', 'subset_obs', 'subset_channel', 'subset_time',
+            'odd_even', 'nested_odd_even', 'bin_time', 'time_as_observations', 'time_as_channels', 'df',
+            'df_default')
 
 
 def clbl(x):
@@ -246,12 +250,29 @@ def resolve(ws, op):
     ok = non_empty(d)
     temporal = is_temporal(d)
 
+    # `keep`: the caller keeps the source of a value-returning operation (`parts = ds.split_..(by)`
+    # with `ds` still in use) -- the results are inserted after it.  Model: `applyKeep`.
+    keep = bool(op.get('keep')) and name in KEEPABLE
+
     def repl(new):
-        return ('state', ws[:i] + list(new) + ws[i + 1:])
+        return ('state', ws[:i] + ([d] if keep else []) + list(new) + ws[i + 1:])
 
     def A(**kw):
         return dict({'at': i}, **kw)
 
+    if name == 'copy' and op.get('ctor'):
+        # a second dataset built by the constructor from the very dictionaries and array of the
+        # first (the constructor keeps what it is given): equal to the source, as a copy is
+        def call():
+            kw = dict(descriptors=d.descriptors, obs_descriptors=d.obs_descriptors,
+                      channel_descriptors=d.channel_descriptors)
+            if is_temporal(d):
+                kw['time_descriptors'] = d.time_descriptors
+            c = type(d)(d.measurements, **kw)
+            if canon(c) != canon(d):
+                raise AssertionError('dataset rebuilt from its own parts differs from the original')
+            return repl([c])
+        return A(), True, call
     if name == 'copy':
         def call():
             c = d.copy()
@@ -355,9 +376,11 @@ def resolve(ws, op):
             return A(), False, None
 
         def call():
-            c = d.copy()      # sort_by works in place; keep the workspace value-semantic
-            c.sort_by(by)
-            return repl([c])
+            # sort_by works in place, on the very object of the workspace (round 4: no defensive
+            # copy -- whatever other objects share with this one is part of what is observed;
+            # every object of the workspace is re-read after the step)
+            d.sort_by(by)
+            return ('state', list(ws))
         return A(by=by), ok and not has_missing(d.obs_descriptors[by]), call
     if name == 'odd_even':
         by = pick_key(table(d, 'obs'), k)
@@ -496,10 +519,15 @@ def apply_step(ws, op):
             kind, val = call()
         except Exception as exc:  # noqa: BLE001  (library failure is a result, not a crash)
             return {'args': args, 'out': {'exc': exc_name(exc), 'msg': str(exc)[:120]}}, ws, None
-    if kind == 'rejected':
-        return {'args': args, 'out': 'rejected'}, ws, None
-    if kind == 'query':
-        return {'args': args, 'out': {'query': val}}, ws, val
+    if kind in ('rejected', 'query'):
+        # a refused call and a query must leave every object of the workspace as it was: re-read all
+        try:
+            st = [canon(x) for x in ws]
+        except Exception as exc:  # noqa: BLE001
+            return {'args': args, 'out': {'exc': 'uncanonical:' + exc_name(exc), 'msg': str(exc)[:120]}}, ws, None
+        if kind == 'rejected':
+            return {'args': args, 'out': 'rejected', 'ws': st}, ws, None
+        return {'args': args, 'out': {'query': val}, 'ws': st}, ws, val
     try:
         st = [canon(x) for x in val]
     except Exception as exc:  # noqa: BLE001
@@ -511,6 +539,7 @@ def run_session(case):
     d0, exc = try_build(case['init'])
     if d0 is None:
         return {'init': 'rejected', 'exc': exc, 'steps': []}
+    init = canon(d0)          # read now: sort_by works in place on the workspace objects
     ws = [d0]
     steps = []
     for op in case['ops']:
@@ -518,4 +547,4 @@ def run_session(case):
         steps.append(res)
         if isinstance(res['out'], dict) and 'exc' in res['out']:
             break     # the real state is gone; later steps cannot be compared
-    return {'init': canon(d0), 'steps': steps}
+    return {'init': init, 'steps': steps}
